@@ -412,6 +412,8 @@ def run_case(case):
             from agilerl.algorithms.core.registry import HyperparameterConfig
 
             shared_cfg = HyperparameterConfig(**{k: v for k, v in shared_cfg.config.items() if k.startswith("lr")})
+        if algo in zoo.MULTI and case["seed"] % 2:
+            kw["agent_ids"] = ["agent_0", "other_0", "agent_1"]  # groups interleaved
         pop = [zoo.make_agent(algo, case["obs"], index=i, hp_config=shared_cfg, **kw) for i in range(case["pop"])]
     except CaseTimeout:
         raise
